@@ -12,7 +12,9 @@
 //!                             certificate and key are replaced (UpdateNOC) - while a Sigma2 / Sigma3 may be waiting
 //!                             for its retransmission
 //!   (`rr` / `rep` with `flaky=<j>`: the builder of request j is NOT idempotent - its output differs on every invocation;
-//!    the transport must refuse to send such a retransmission: the send fails, nothing differing reaches the wire)
+//!    the transport must refuse to send such a retransmission: the send fails, nothing differing reaches the wire;
+//!    `flakyrel=<j>`: the builder of request j produces the SAME payload every time but asks for reliable delivery only
+//!    on its first invocation - a retransmission would carry the original's counter with the R flag cleared)
 //!   `rr n=<k> sched=…`        k request/response rounds on that session: the controller's application sends a
 //!                             reliable request on a new exchange, the device's application answers with a reliable
 //!                             response on the same exchange, the next request acknowledges it
@@ -113,18 +115,20 @@ impl ExchangeHandler for App {
 
 /// the requesting side: `n` messages `[tag, j, last]`, each answered; the last answer is acknowledged
 /// `flaky = Some(j)`: the builder of request `j` is NOT idempotent (it writes the number of its invocation):
-/// a retransmission of that request would differ from the original
-async fn rounds(mut ex: Exchange<'_>, tag: u8, n: u8, flaky: Option<u8>) -> Result<(), Error> {
+/// a retransmission of that request would differ from the original;
+/// `flakyrel = Some(j)`: the builder of request `j` writes the same payload every time but returns `reliable = true`
+/// only on its first invocation: the rebuilt message would differ from the original in the R flag of its header
+async fn rounds(mut ex: Exchange<'_>, tag: u8, n: u8, flaky: Option<u8>, flakyrel: Option<u8>) -> Result<(), Error> {
     for j in 0..n {
         let last = j + 1 >= n;
         let mut calls = 0u8;
         ex.send_with(|_, wb| {
-            calls += 1;
+            calls = calls.saturating_add(1);
             wb.append(&[tag, j, last as u8, 0xa5])?;
             if flaky == Some(j) {
                 wb.append(&[calls])?;
             }
-            Ok(Some(MessageMeta::new(PROTO_APP, 0x02, true)))
+            Ok(Some(MessageMeta::new(PROTO_APP, 0x02, flakyrel != Some(j) || calls == 1)))
         })
         .await?;
         let rx = core::pin::pin!(ex.recv());
@@ -230,12 +234,12 @@ pub fn run_case(kind: &str, ops: &[String]) -> Vec<String> {
                         Some((c, d)) => {
                             let r = if w[0] == "rr" {
                                 match Exchange::initiate_for_session(&ctl, &crypto, c) {
-                                    Ok(ex) => rounds(ex, tag, n, num(&m, "flaky").map(|f| f as u8)).await,
+                                    Ok(ex) => rounds(ex, tag, n, num(&m, "flaky").map(|f| f as u8), num(&m, "flakyrel").map(|f| f as u8)).await,
                                     Err(e) => Err(e),
                                 }
                             } else {
                                 match Exchange::initiate_for_session(&dev, &crypto, d) {
-                                    Ok(ex) => rounds(ex, tag, n, num(&m, "flaky").map(|f| f as u8)).await,
+                                    Ok(ex) => rounds(ex, tag, n, num(&m, "flaky").map(|f| f as u8), num(&m, "flakyrel").map(|f| f as u8)).await,
                                     Err(e) => Err(e),
                                 }
                             };
@@ -285,7 +289,13 @@ pub fn run_case(kind: &str, ops: &[String]) -> Vec<String> {
 pub fn run_sys(out: &mut Out, kind: &str, ops: &[String]) {
     let r = match std::panic::catch_unwind(std::panic::AssertUnwindSafe(|| run_case(kind, ops))) {
         Ok(r) => r,
-        Err(_) => ops.iter().map(|_| "panic".to_string()).collect(),
+        Err(e) => {
+            if std::env::var_os("VH_PANIC_MSG").is_some() {
+                let msg = e.downcast_ref::<String>().cloned().or_else(|| e.downcast_ref::<&str>().map(|s| s.to_string()));
+                eprintln!("panic: {}", msg.unwrap_or_default());
+            }
+            ops.iter().map(|_| "panic".to_string()).collect()
+        }
     };
     for (op, res) in ops.iter().zip(r.iter()) {
         let head = op.split_whitespace().next().unwrap_or("?");
